@@ -17,7 +17,7 @@ import (
 
 // ScenarioTimeout bounds one scenario; a sequential scenario normally takes
 // milliseconds, so hitting it means a call did not return.
-var ScenarioTimeout = 60 * time.Second
+var ScenarioTimeout = 25 * time.Second
 
 // Opts are the common command-line options of every engine.
 type Opts struct {
@@ -36,8 +36,9 @@ func ParseOpts(args []string, fs *flag.FlagSet) *Opts {
 	fs.IntVar(&o.Workers, "workers", 4, "parallel workers")
 	fs.StringVar(&o.Dir, "dir", os.TempDir(), "scratch directory")
 	fs.Int64Var(&o.Seed, "seed", 1, "seed")
+	fs.Init(fs.Name(), flag.ContinueOnError)
 	if err := fs.Parse(args); err != nil {
-		os.Exit(2)
+		os.Exit(64)
 	}
 	o.Args = fs.Args()
 	return o
@@ -48,6 +49,7 @@ type Ev map[string]any
 
 // Tracer writes the events of one worker.
 type Tracer struct {
+	mu  sync.Mutex
 	w   *bufio.Writer
 	f   *os.File
 	enc *json.Encoder
@@ -66,10 +68,16 @@ func NewTracer(path string) (*Tracer, error) {
 }
 
 // Begin starts trace number t.
-func (tr *Tracer) Begin(t int) { tr.t, tr.i = t, 0 }
+func (tr *Tracer) Begin(t int) {
+	tr.mu.Lock()
+	tr.t, tr.i = t, 0
+	tr.mu.Unlock()
+}
 
 // Emit writes one event.
 func (tr *Tracer) Emit(e string, kv Ev) {
+	tr.mu.Lock()
+	defer tr.mu.Unlock()
 	tr.i++
 	if kv == nil {
 		kv = Ev{}
